@@ -78,4 +78,28 @@ Proof.
   exists hcs. repeat split; auto. now apply writes_of_view.
 Qed.
 
+(* C09: a connection without a fault of its own is never dropped *)
+Theorem healthy_never_dropped :
+  (0 < p_step P)%N ->
+  forall (c : nat) (fs : list (list byte)),
+  Forall frame_ok fs -> (forall f, In f fs -> decode P f <> None) ->
+  (N.of_nat (length (wire fs)) < p_limit P)%N ->
+  forall (E : list (eev P)) (s0 : sstate P) (s : sv P) (T : list (tev P)),
+  clean P c E -> input_of P false c E = wire fs ->
+  exec P E (init_sv P s0) = (s, T) -> dcount P c T = 0.
+Proof.
+  intros Hs c fs H1 H2 H3 E s0 s T H4 H5 H6.
+  exact (proj1 (connection_view P Hs c fs H1 H2 H3 E s0 s T H4 H5 H6)).
+Qed.
+
+(* C09: a frame that does not decode removes its connection and never reaches the service *)
+Theorem undecodable_never_reaches_service (s : sv P) cs idx st s' t :
+  on_call P s cs idx (Msg None) = (st, s', t) ->
+  sst s' = sst s /\
+  flat_map (fun e => match e with TInvoke c cl a => [(c, cl, a)] | _ => [] end) t = [].
+Proof.
+  intros H. unfold on_call in H.
+  destruct (nth_error cs idx); inversion H; subst; split; reflexivity.
+Qed.
+
 End Thms.
